@@ -1,5 +1,6 @@
 import Op2Model.Stream
 import Op2Proofs.StreamLemmas
+import Op2Proofs.SliceNesting
 /-!
 # `ReadNullTerminatedString` — what the byte-at-a-time loop delivers, for every cursor, content and `maxCount`
 
@@ -134,5 +135,149 @@ theorem readNT_mem (fuel : Nat) (s : MemR) (acc : Bytes) (h : s.Inv) :
         · rfl
         · exact ih s' _ hi
       · rfl
+
+end Op2.Stream
+
+namespace Op2.Stream
+/-! ## the loop over ANY reader that refines the abstract one on single-byte reads
+
+`SimRes E ab G r r'`: the concrete result `r` and the abstract result `r'` agree — both fail (error kinds related by
+`E`: take `Eq` when they coincide, `fun _ _ => True` when they need not), or both succeed with the same bytes, the
+concrete final state satisfying the invariant `G` and abstracting (`ab`) to the abstract final state. -/
+
+def SimRes {σ : Type} (E : Err → Err → Prop) (ab : σ → RSpec) (G : σ → Prop)
+    (r : Except Err (Bytes × σ)) (r' : Except Err (Bytes × RSpec)) : Prop :=
+  match r, r' with
+  | .ok (b, s'), .ok (b', a') => b = b' ∧ ab s' = a' ∧ G s'
+  | .error e, .error e' => E e e'
+  | .ok _, .error _ => False
+  | .error _, .ok _ => False
+
+/-- the abstract reader hands out exactly one byte for `Read(1)` -/
+theorem rd_one_singleton (a a' : RSpec) (b : Bytes) (h : RSpec.rd a 1 = .ok (b, a')) : ∃ c, b = [c] := by
+  unfold RSpec.rd RSpec.step at h
+  by_cases hin : a.pos + 1 ≤ a.data.length
+  · simp only [hin, if_true, Except.ok.injEq, Prod.mk.injEq] at h
+    obtain ⟨hb, _⟩ := h
+    have hl : b.length = 1 := by
+      rw [← hb]; simp only [RSpec.window, List.length_take, List.length_drop]; omega
+    match b, hl with
+    | [c], _ => exact ⟨c, rfl⟩
+  · simp [hin] at h
+
+/-- **simulation**: a reader whose `Read(1)` agrees with the abstract reader's on every state satisfying `G`
+    (same success/failure, same byte, abstraction commutes, `G` kept) runs the whole
+    `ReadNullTerminatedString` loop in agreement with the abstract reader: same success/failure, same string,
+    and the final state abstracts to the abstract final state -/
+theorem readNT_sim {σ : Type} (E : Err → Err → Prop) (rd : σ → Nat → Except Err (Bytes × σ)) (ab : σ → RSpec)
+    (G : σ → Prop) (hstep : ∀ s, G s → SimRes E ab G (rd s 1) (RSpec.rd (ab s) 1))
+    (fuel : Nat) (s : σ) (acc : Bytes) (hs : G s) :
+    SimRes E ab G (readNT rd fuel s acc) (readNT RSpec.rd fuel (ab s) acc) := by
+  induction fuel generalizing s acc with
+  | zero => exact ⟨rfl, rfl, hs⟩
+  | succ fuel ih =>
+    have h := hstep s hs
+    simp only [readNT]
+    cases h1 : rd s 1 with
+    | error e =>
+      cases h2 : RSpec.rd (ab s) 1 with
+      | error e' => rw [h1, h2] at h; exact h
+      | ok p' => rw [h1, h2] at h; exact h.elim
+    | ok p =>
+      cases h2 : RSpec.rd (ab s) 1 with
+      | error e' => rw [h1, h2] at h; exact h.elim
+      | ok p' =>
+        obtain ⟨b, s'⟩ := p
+        obtain ⟨b', a'⟩ := p'
+        rw [h1, h2] at h
+        obtain ⟨hb, ha, hg⟩ := h
+        subst hb
+        obtain ⟨c, rfl⟩ := rd_one_singleton (ab s) a' b h2
+        subst ha
+        simp only
+        by_cases hc : c = 0
+        · rw [if_pos hc, if_pos hc]; exact ⟨rfl, rfl, hg⟩
+        · rw [if_neg hc, if_neg hc]; exact ih s' (c :: acc) hg
+
+/-- the simulation composed with `readNT_spec`: over any refining reader the loop delivers what `ntSpec` says of the
+    bytes ahead of the abstract cursor, and the final state abstracts to the cursor advanced by the consumed count -/
+theorem readNT_refined {σ : Type} (E : Err → Err → Prop) (rd : σ → Nat → Except Err (Bytes × σ)) (ab : σ → RSpec)
+    (G : σ → Prop) (hstep : ∀ s, G s → SimRes E ab G (rd s 1) (RSpec.rd (ab s) 1))
+    (m : Nat) (s : σ) (hs : G s) (hp : (ab s).pos ≤ (ab s).data.length) :
+    match ntSpec ((ab s).data.drop (ab s).pos) m with
+    | some (str, n) => ∃ s', readNT rd m s [] = .ok (str, s') ∧ G s' ∧ ab s' = { ab s with pos := (ab s).pos + n }
+    | none => ∃ e, readNT rd m s [] = .error e ∧ E e .bounds := by
+  have h := readNT_sim E rd ab G hstep m s [] hs
+  rw [readNT_spec m (ab s) [] hp] at h
+  cases hn : ntSpec ((ab s).data.drop (ab s).pos) m with
+  | none =>
+    rw [hn] at h
+    cases hr : readNT rd m s [] with
+    | error e => rw [hr] at h; exact ⟨e, rfl, h⟩
+    | ok p => rw [hr] at h; exact h.elim
+  | some q =>
+    obtain ⟨str, n⟩ := q
+    rw [hn] at h
+    cases hr : readNT rd m s [] with
+    | error e => rw [hr] at h; exact h.elim
+    | ok p =>
+      obtain ⟨b, s'⟩ := p
+      rw [hr] at h
+      obtain ⟨hb, ha, hg⟩ := h
+      refine ⟨s', ?_, hg, ha⟩
+      rw [hb]; simp
+
+/-! ## instance: `SliceReader<W>` -/
+
+/-- a slice's checked `Read(k)` as the typed helpers see it (the driver's `Rd.read` on a slice backend) -/
+def Slice.rd {σ : Type} (W : Wrapped σ) (s : Slice σ) (k : Nat) : Except Err (Bytes × Slice σ) :=
+  match Slice.step W s (.read k) with
+  | (.bytes b, s') => .ok (b, s')
+  | _ => .error .bounds
+
+variable {σ : Type} {W : Wrapped σ} {ab : σ → RSpec} {G : σ → Prop}
+
+/-- one checked read of a slice agrees with the abstract reader over the slice's window — errors included -/
+theorem slice_rd_sim (ok : WrappedOK W ab G) (s : Slice σ) (hs : sliceGood G ab s) (k : Nat) (hk : k < W64) :
+    SimRes Eq (sliceAbs ab) (sliceGood G ab) (Slice.rd W s k) (RSpec.rd (sliceAbs ab s) k) := by
+  obtain ⟨e1, g, a⟩ := slice_refines ok s hs (.read k) hk
+  unfold Slice.rd RSpec.rd
+  generalize Slice.step W s (.read k) = r at e1 g a
+  generalize RSpec.step (sliceAbs ab s) (.read k) = r' at e1 a
+  obtain ⟨o, s'⟩ := r
+  obtain ⟨o', a'⟩ := r'
+  simp only at e1 g a
+  subst e1; subst a
+  cases o with
+  | bytes b => exact ⟨rfl, rfl, g⟩
+  | unit => exact rfl
+  | err => exact rfl
+
+/-- `ReadNullTerminatedString` over a slice of any in-bounds-correct stream runs exactly like the abstract reader
+    over the slice's window -/
+theorem readNT_slice (ok : WrappedOK W ab G) (fuel : Nat) (s : Slice σ) (acc : Bytes) (hs : sliceGood G ab s) :
+    SimRes Eq (sliceAbs ab) (sliceGood G ab) (readNT (Slice.rd W) fuel s acc)
+      (readNT RSpec.rd fuel (sliceAbs ab s) acc) :=
+  readNT_sim Eq (Slice.rd W) (sliceAbs ab) (sliceGood G ab)
+    (fun t ht => slice_rd_sim ok t ht 1 (by unfold W64; omega)) fuel s acc hs
+
+/-- … hence delivers what `ntSpec` says of the window ahead of the slice's cursor -/
+theorem readNT_slice_spec (ok : WrappedOK W ab G) (m : Nat) (s : Slice σ) (hs : sliceGood G ab s) :
+    match ntSpec ((sliceAbs ab s).data.drop (sliceAbs ab s).pos) m with
+    | some (str, n) => ∃ s', readNT (Slice.rd W) m s [] = .ok (str, s') ∧ sliceGood G ab s' ∧
+        sliceAbs ab s' = { sliceAbs ab s with pos := (sliceAbs ab s).pos + n }
+    | none => readNT (Slice.rd W) m s [] = .error .bounds := by
+  have h := readNT_refined Eq (Slice.rd W) (sliceAbs ab) (sliceGood G ab)
+    (fun t ht => slice_rd_sim ok t ht 1 (by unfold W64; omega)) m s hs ((sliceWrappedOK ok).inv s hs).1
+  cases hn : ntSpec ((sliceAbs ab s).data.drop (sliceAbs ab s).pos) m with
+  | none =>
+    rw [hn] at h
+    obtain ⟨e, he, rfl⟩ := h
+    exact he
+  | some q => rw [hn] at h; exact h
+
+/-- the slice's own `Position()` is the abstract cursor -/
+theorem slice_position_abs (ok : WrappedOK W ab G) (s : Slice σ) (hs : sliceGood G ab s) :
+    Slice.position W s = (sliceAbs ab s).pos := slice_position_eq ok s hs
 
 end Op2.Stream
